@@ -305,4 +305,7 @@ def sync (p : Pool) (threshold : Nat) (listed : List Listed) (retry : Nat → Bo
 
 end Pool
 
+/-- Worker ids are distinct (they are the keys of the Go map `wp.workers`). -/
+def Pool.WF (p : Pool) : Prop := p.workers.Pairwise (fun a b => a.id ≠ b.id)
+
 end ArvVerif.C14
